@@ -194,20 +194,38 @@ def run(tier, replay_path, t0):
                 stats.append(st)
                 cases += cs
                 cex += cx
-        # model counter-examples are always replayed on the real code (DESIGN.md 3.7)
-        cases = dedupe(cases + [c["case"] for c in cex])
-    log("  replaying %d cases on the real code (%d slates, %d addresses/records)" % (
-        len(cases), sum(1 for c in cases if c["kind"] == "slate"), sum(1 for c in cases if c["kind"] != "slate")))
-    t1 = time.time()
-    nd = replay("replay_codec", {"seed": seed(), "cases": cases}, PROP)
-    events = read_ndjson(nd)
-    t2 = time.time()
-    if len(events) != len(cases):
-        raise ToolError("harness returned %d lines for %d cases" % (len(events), len(cases)))
-    viols, nonconfs, m_ok = trace_validate(nd, PROP, MC_WORKERS)
-    t3 = time.time()
-    log("  stages: build %.0fs, model checking + generation %.0fs, replay %.0fs, trace validation %.0fs" % (
-        build_s, t1 - t0 - build_s, t2 - t1, t3 - t2))
+        cases = dedupe(cases)
+    model_classes = sorted(set(x for s in stats for x in s["model_violation_classes"]))
+
+    def execute(cases):
+        log("  replaying %d cases on the real code (%d slates, %d addresses/records)" % (
+            len(cases), sum(1 for c in cases if c["kind"] == "slate"), sum(1 for c in cases if c["kind"] != "slate")))
+        t1 = time.time()
+        nd = replay("replay_codec", {"seed": seed(), "cases": cases}, PROP)
+        events = read_ndjson(nd)
+        if len(events) != len(cases):
+            raise ToolError("harness returned %d lines for %d cases" % (len(events), len(cases)))
+        t2 = time.time()
+        viols, nonconfs, m_ok = trace_validate(nd, PROP, MC_WORKERS)
+        log("  stages: replay %.0fs, trace validation %.0fs" % (t2 - t1, time.time() - t2))
+        return events, viols, nonconfs, m_ok
+
+    log("  build %.0fs, model checking + generation %.0fs" % (build_s, time.time() - t0 - build_s))
+    events, viols, nonconfs, m_ok = execute(cases)
+    shown = set("/".join(k.split("/")[1:]) for k in keys_of(viols, events))
+    unexplained = [c for c in model_classes if c not in shown]
+    if unexplained:
+        # a model counter-example of a class the generated cases did not show on the real code is
+        # replayed on the real code before anything is concluded from it (DESIGN.md 3.7)
+        extra = {}
+        for c in sorted(cex, key=lambda c: json.dumps(c["case"], sort_keys=True)):
+            for d in (c.get("diff") or ["unequal"]):
+                k = "/".join(key_of(c["p"], c["e"], c.get("inh") or [], d).split("/")[1:])
+                if k in unexplained and k not in extra:
+                    extra[k] = c["case"]
+        log("  model counter-example classes not shown by the generated cases: %s; replaying their %d cases" % (unexplained, len(extra)))
+        cases = dedupe(cases + list(extra.values()))
+        events, viols, nonconfs, m_ok = execute(cases)
     hp = [n for n in nonconfs if n.get("what") == "harness-panic"]
     if hp:
         raise ToolError("the harness itself panicked on %d cases; first: %s" % (len(hp), hp[0]))
@@ -216,8 +234,11 @@ def run(tier, replay_path, t0):
     if nonconfs:
         log("NONCONFORMANCE: %d observations are not what the model predicts (Layer M); first: %s" % (len(nonconfs), json.dumps(nonconfs[0])[:600]))
     # model vs. code: which violation classes did the model predict, which did the code show
-    model_classes = sorted(set(x for s in stats for x in s["model_violation_classes"]))
     code_classes = sorted(set("/".join(k.split("/")[1:]) for k in keys))
+    not_reproduced = [c for c in model_classes if c not in code_classes]
+    if not_reproduced and not replay_path:
+        log("NONCONFORMANCE: the model violates the property in classes the real code does not show (the model is wrong there, or a fix "
+            "went in and a switch of spec/CodecRoundTrip.tla was not flipped): %s" % not_reproduced)
     known, new = classify(PROP, keys)
     res_kinds = {}
     panics = 0
@@ -227,13 +248,28 @@ def run(tier, replay_path, t0):
             res_kinds[k] = res_kinds.get(k, 0) + 1
             panics += 1 if "panic" in str(r.get("res")) else 0
     slates = [c for c in cases if c["kind"] == "slate"]
+    witness = {
+        "slates_with_nrd_args": sum(1 for c in slates if c["a"]["feat"] == 3 and c["a"]["fargs"] != "none"),
+        "slates_with_height_lock": sum(1 for c in slates if c["a"]["feat"] == 2),
+        "slates_with_more_than_255_participants": sum(1 for c in slates if len(c["a"]["sigs"]) > 255),
+        "slates_with_all_optionals_default": sum(1 for c in slates if c["a"]["amt"] == "0" and c["a"]["fee"] == "0" and c["a"]["ttl"] == "0" and c["a"]["np"] == 2),
+        "encrypted_decodings_with_sender_recovered": sum(1 for ev in events if ev["ev"] == "slate" for e, r in ev["enc"].items()
+                                                         if e.endswith(".enc") and r.get("res") == "ok" and r.get("sender") == "same"),
+        "records_with_subsecond_reverted_after": sum(1 for c in cases if c["kind"] == "txlog" and c["a"]["reverted"] == "frac"),
+        "layer_p_violation_lines": len(viols),
+    }
+    if not replay_path:
+        # vacuity guard: the interesting classes must have been generated and executed
+        empty = [k for k, v in witness.items() if v == 0 and k != "layer_p_violation_lines"]
+        if empty:
+            raise ToolError("vacuity guard: no case of class %s was generated" % empty)
     cov = {
         "states": sum(s["states"] for s in stats) or 1,
         "transitions": sum(s["transitions"] for s in stats) or 1,
         "traces_validated_against_impl": len(events),
         "samples": [{"case": cases[i], "observed_original": events[i].get("orig"),
                      "decoded": {e: r.get("dec", r.get("res")) for e, r in events[i].get("enc", {}).items()}}
-                    for i in sorted(rnd.sample(range(len(cases)), min(4, len(cases))))],
+                    for i in sorted(rnd.sample([i for i, c in enumerate(cases) if len(c["a"].get("sigs", [])) <= 3] or [0], min(4, len(cases))))],
         "exhaustive": bool(stats) and all(s["completed"] for s in stats),
         "mc_configs": stats,
         "cases_replayed": len(cases),
@@ -242,17 +278,11 @@ def run(tier, replay_path, t0):
         "results_by_kind_encoding": res_kinds,
         "panics_observed": panics,
         "field_value_coverage": field_coverage(cases),
-        "witness_counts": {
-            "slates_with_nrd_args": sum(1 for c in slates if c["a"]["feat"] == 3 and c["a"]["fargs"] != "none"),
-            "slates_with_height_lock": sum(1 for c in slates if c["a"]["feat"] == 2),
-            "slates_with_all_optionals_default": sum(1 for c in slates if c["a"]["amt"] == "0" and c["a"]["fee"] == "0" and c["a"]["ttl"] == "0" and c["a"]["np"] == 2),
-            "encrypted_decodings_with_sender_recovered": sum(1 for ev in events if ev["ev"] == "slate" for e, r in ev["enc"].items()
-                                                             if e.endswith(".enc") and r.get("res") == "ok" and r.get("sender") == "same"),
-            "layer_p_violation_lines": len(viols),
-        },
+        "witness_counts": witness,
         "model_violation_classes": model_classes,
         "code_violation_classes": code_classes,
         "code_violation_classes_not_predicted_by_model": [c for c in code_classes if c not in model_classes and not replay_path],
+        "model_violation_classes_not_reproduced_by_code": [] if replay_path else not_reproduced,
         "layer_m_evaluated": m_ok,
         "layer_m_nonconformances": len(nonconfs),
         "layer_m_first": nonconfs[:3],
